@@ -320,7 +320,10 @@ pub fn run(tier: Tier) -> Result<Report, String> {
         .collect();
     let mut by_sig: BTreeMap<String, Violation> = BTreeMap::new();
     for (kind, core, src, exp, obs) in shrunk {
-        let sig = format!("{}|{}", kind, core);
+        let sig = match crate::c01::construct_class(&core) {
+            Some(class) => format!("{}|{}", kind, class),
+            None => format!("{}|{}", kind, core),
+        };
         by_sig.entry(sig.clone()).or_insert_with(|| {
             let (e2, o2) = match judge(&core) {
                 Verdict::Disagree { expected, observed, .. } => (expected, observed),
